@@ -255,10 +255,14 @@ def r07_3_references(chk):
     ea = ix.get_class("EFLRAttribute")
     conv = ea.lookup("_convert_value")
     chk.consult(conv)
-    src = norm(conv.node)
-    chk.require("isinstance(v, object_class)" in src and "raise TypeError" in src, "R07.3",
-                "reference-values-type-checked", "EFLRAttribute accepts values that are not items of the admissible class",
-                conv.where)
+    from ..terms import raise_conditions as _rc, return_alternatives as _ra
+    csum = chk.summary(conv)
+    v = ("param", conv.param_names[-1])
+    guarded = [pc for pc, _ in _rc(csum) if any(l[0] == "not" and is_call(l[1], "isinstance", 2) and l[1][2][0] == v
+                                                for l in pc)]
+    returned = [t for _, t in _ra(csum)]
+    chk.require(bool(guarded) and all(t == v for t in returned), "R07.3", "reference-values-type-checked",
+                "EFLRAttribute accepts values that are not items of the admissible class (or alters them)", conv.where)
 
 
 def r07_4_origins(chk):
